@@ -451,6 +451,9 @@ func c07(c *Ctx) {
 	c06sharedBarrierAs(c, "C07.R9")
 	c06barrierUse(c, "C07.R9")
 	c07memCache(c)
+	c07flightClosuresDontSerialise(c)
+	// R11 (round 8): the callers of the cache's flight keep the query inside it (C06.R15)
+	runShared(c, "C06.R15", "C07.R11", c06queriesInsideTake)
 }
 
 // c07privateGroup (C07.R7): every ResourceManager owns its flight group. The flight key is only the
@@ -637,4 +640,131 @@ func c07memCache(c *Ctx) {
 		return true, ""
 	})
 	c.R.Min(rule, 2, "Cache.Take, its flight closure")
+}
+
+// c07flightClosuresDontSerialise (C07.R12, round 8): "calls on different keys never wait for each other". The work of
+// a flight — creating the resource, dialling, querying — runs in the function literal handed to SingleFlight.Do/DoEx;
+// a mutex taken inside that literal is shared by the flights of ALL keys (it belongs to the enclosing object). While it
+// is held the literal performs no call at all (map reads and writes only, as every in-tree literal does): a lock kept
+// across the creation turns the per-key flights into one queue — a slow creation for one key stalls every other key.
+func c07flightClosuresDontSerialise(c *Ctx) {
+	rule := "C07.R12"
+	var bad []string
+	sites, locking := 0, 0
+	isLock := func(cc *ssa.CallCommon, names ...string) bool {
+		cal := cc.StaticCallee()
+		if cal == nil || cal.Pkg == nil || cal.Pkg.Pkg.Path() != "sync" {
+			return false
+		}
+		return nameIn(cal.Name(), names)
+	}
+	for _, pk := range c.P.Pkgs {
+		rel := strings.TrimPrefix(pk.PkgPath, mod)
+		for _, fn := range c.P.AllFuncs(rel) {
+			for _, b := range fn.Blocks {
+				for _, ins := range b.Instrs {
+					call, ok := ins.(ssa.CallInstruction)
+					if !ok {
+						continue
+					}
+					cc := call.Common()
+					if !cc.IsInvoke() || typeString(cc.Value.Type()) != "core/syncx.SingleFlight" {
+						continue
+					}
+					for _, a := range cc.Args {
+						mc, ok := a.(*ssa.MakeClosure)
+						if !ok {
+							continue
+						}
+						cl := mc.Fn.(*ssa.Function)
+						sites++
+						// forward may-held dataflow over the literal's blocks (a deferred Unlock holds to the end)
+						in := map[*ssa.BasicBlock]int{}
+						deferredUnlock := false
+						for _, cb := range cl.Blocks {
+							for _, ci := range cb.Instrs {
+								if d, ok := ci.(*ssa.Defer); ok && isLock(&d.Call, "Unlock", "RUnlock") {
+									deferredUnlock = true
+								}
+							}
+						}
+						changed := true
+						for iter := 0; changed && iter < 20; iter++ {
+							changed = false
+							for _, cb := range cl.Blocks {
+								h := in[cb]
+								for _, ci := range cb.Instrs {
+									cci, ok := ci.(ssa.CallInstruction)
+									if !ok {
+										continue
+									}
+									if _, isDefer := ci.(*ssa.Defer); isDefer {
+										continue
+									}
+									switch {
+									case isLock(cci.Common(), "Lock", "RLock"):
+										h = 1
+									case isLock(cci.Common(), "Unlock", "RUnlock"):
+										h = 0
+									}
+								}
+								for _, s := range cb.Succs {
+									if h > in[s] {
+										in[s] = h
+										changed = true
+									}
+								}
+							}
+						}
+						usesLock := false
+						for _, cb := range cl.Blocks {
+							h := in[cb]
+							for _, ci := range cb.Instrs {
+								cci, ok := ci.(ssa.CallInstruction)
+								if !ok {
+									continue
+								}
+								if _, isDefer := ci.(*ssa.Defer); isDefer {
+									continue
+								}
+								switch {
+								case isLock(cci.Common(), "Lock", "RLock"):
+									h = 1
+									usesLock = true
+									continue
+								case isLock(cci.Common(), "Unlock", "RUnlock"):
+									h = 0
+									continue
+								}
+								if h == 0 {
+									continue
+								}
+								if _, isBuiltin := cci.Common().Value.(*ssa.Builtin); isBuiltin {
+									continue
+								}
+								what := "a call"
+								if cal := cci.Common().StaticCallee(); cal != nil {
+									what = funcDisplay(cal)
+								} else if cci.Common().IsInvoke() {
+									what = cci.Common().Method.FullName()
+								}
+								how := ""
+								if deferredUnlock {
+									how = " (the unlock is deferred to the end of the literal)"
+								}
+								bad = append(bad, fmt.Sprintf("%s: the flight literal in %s calls %s while holding a mutex%s: the flights of all keys queue behind it", c.P.Pos(cci.Pos()), funcDisplay(fn), what, how))
+							}
+						}
+						if usesLock {
+							locking++
+						}
+					}
+				}
+			}
+		}
+	}
+	sortStrings(bad)
+	bad = uniqStrings(bad)
+	o := c.R.Check(len(bad) == 0 && sites >= 4 && locking >= 2, rule, "SingleFlight users#no-lock-across-work", "a function literal handed to SingleFlight.Do/DoEx performs no call while it holds a mutex (the mutex is shared by the flights of all keys; only map reads and writes happen under it)", "-", strings.Join(bad, "; "), bad, sites)
+	o.Sites = sites
 }
